@@ -509,6 +509,9 @@ func runPipeline(idx int, sc Script) Result {
 	r.dialer = simnet.NewDialer(r.rec, "d")
 	r.t = transport.NewPipelineTransport(transport.PipelineOpts{
 		DialContext: func(ctx context.Context) (transport.DnsConn, error) {
+			if sc.DialIgnoresCtx { // a dial that returns a connection although it was cancelled
+				ctx = context.Background()
+			}
 			v, err := r.dialer.Await(ctx)
 			if err != nil {
 				return nil, err
